@@ -271,6 +271,59 @@ def run(ctx, tier):
             ctx.violation("result-handed-out-by-reference:" + _name(fn).split(".")[-1], function=_name(fn), args=repr(a)[:300],
                           recorded=want[:300], after_the_caller_edited_the_previous_result=again[:300], monitor="replay", case=None)
     ctx.hit("replay_after_caller_edited_result", nm_)
+    # phase 1x: the call is made from INSIDE the caller's exception handler (a fallback after a failed look-up: `except KeyError:
+    # pos = position_with_ref(...)`) - a bare `raise` in the library then re-raises the caller's exception instead of its own
+    nxh = 0
+    for i in order[:1500]:
+        fn, a, k, want = rec[i]
+        try:
+            raise KeyError("the caller's own look-up failed")
+        except KeyError:
+            got = repr(probe.call(fn, *_copy(a), **_copy(k)))
+        nxh += 1
+        ctx.ev()
+        if got != want:
+            ctx.violation("result-differs-inside-an-exception-handler:" + _name(fn).split(".")[-1], function=_name(fn), args=repr(a)[:300],
+                          recorded=want[:300], inside_except_KeyError=got[:300], monitor="replay", case=None)
+    ctx.hit("replay_inside_an_exception_handler", nxh)
+    # phase 1l: the host application logs at DEBUG level (root logger and every pyModeS logger, a handler attached): tracing is
+    # for reading, it does not change what a function returns
+    import logging as _lg
+    nlg = 0
+
+    class _Sink(_lg.Handler):
+        def emit(self, record):
+            try:
+                record.getMessage()
+            except Exception:
+                pass
+    root_ = _lg.getLogger()
+    oldlvl, olddis = root_.level, _lg.root.manager.disable
+    sink_ = _Sink()
+    touched = []
+    try:
+        root_.addHandler(sink_)
+        root_.setLevel(_lg.DEBUG)
+        _lg.disable(_lg.NOTSET)
+        for nm_, lg_ in list(_lg.root.manager.loggerDict.items()):
+            if nm_.startswith("pyModeS") and isinstance(lg_, _lg.Logger):
+                touched.append((lg_, lg_.level))
+                lg_.setLevel(_lg.DEBUG)
+        for i in order[:1500]:
+            fn, a, k, want = rec[i]
+            got = repr(probe.call(fn, *_copy(a), **_copy(k)))
+            nlg += 1
+            ctx.ev()
+            if got != want:
+                ctx.violation("result-depends-on-logging-level:" + _name(fn).split(".")[-1], function=_name(fn), args=repr(a)[:300],
+                              recorded=want[:300], with_logging_at_DEBUG=got[:300], monitor="replay", case=None)
+    finally:
+        for lg_, lv_ in touched:
+            lg_.setLevel(lv_)
+        root_.setLevel(oldlvl)
+        root_.removeHandler(sink_)
+        _lg.disable(olddis)
+    ctx.hit("replay_with_logging_at_debug", nlg)
     # phase 1s: a detached worker (daemonised, double-forked) whose standard streams are CLOSED: a decoder has nothing to say on
     # them - a "tell the user once" notice or a leftover debug print turns into ValueError there.  (The two aliases that are
     # documented to emit a DeprecationWarning are not asked.)
@@ -319,13 +372,17 @@ def run(ctx, tier):
     # half-updated memo / scratch state from the one that died
     nx = 0
     if descend > 50:
-        for i in order[:400]:
+        for i, h in [(i_, h_) for i_ in order[:300] for h_ in range(-7, 14)]:
             fn, a, k, want = rec[i]
-            h = 1 + (i * 7 + nx) % 24
             try:
-                _deep(descend + 80 - h, lambda: probe.call(fn, *_copy(a), **_copy(k)))
+                tight = _deep(descend + 80 - h, lambda: probe.call(fn, *_copy(a), **_copy(k)))
             except RecursionError:
-                pass
+                tight = None
+            if tight is not None and not (tight[0] == "exc" and tight[1] == "RecursionError") and repr(tight) != want:
+                # the call did come back: then with the recorded answer - `except Exception: return None` around a helper call
+                # turns "out of stack" into "no data"
+                ctx.violation("result-differs-near-the-stack-limit:" + _name(fn).split(".")[-1], function=_name(fn), args=repr(a)[:300],
+                              recorded=want[:300], with_frames_of_headroom=h, returned=repr(tight)[:300], monitor="replay", case=None)
             got = repr(probe.call(fn, *_copy(a), **_copy(k)))
             nx += 1
             ctx.ev(2)
@@ -436,6 +493,52 @@ def run(ctx, tier):
             th.join(timeout=secs + 60)
     finally:
         sys.setswitchinterval(old)
+    # phase 2b: a burst of MANY threads (48) on one function at a time: a pool of scratch rows / a fixed number of slots sized
+    # for "more threads than anyone runs" is exhausted only when more callers than slots are inside the function at once
+    if not bad:
+        many = 48
+        secs_b = float(os.environ.get("PMV_MANY_THREADS_SECONDS", "2.1" if tier == "quick" else "12"))
+        stop_b = time.time() + secs_b
+        counts_b = [0] * many
+        t_start_b = time.time()
+
+        def work_b(t):
+            r = random.Random(ctx.seed * 131 + ctx.shard * 17 + t)
+            while time.time() < stop_b and not bad:
+                sl = int((time.time() - t_start_b) / 0.3)
+                g = groups[gnames[(sl + ctx.shard) % len(gnames)]]
+                for _ in range(20):
+                    fn, a, k, want = rec[g[r.randrange(len(g))]]
+                    plain = not k and all(type(x) in (str, int, float, bool, type(None)) for x in a)
+                    for _rep in range(6):
+                        # (immutable arguments are passed as they are and the call is made directly: the threads should spend
+                        #  their time INSIDE the function, not in the harness)
+                        if plain:
+                            try:
+                                got = repr(("ok", fn(*a)))
+                            except BaseException as e:  # noqa
+                                got = repr(("exc", type(e).__name__, str(e)[:200]))
+                        else:
+                            got = repr(probe.call(fn, *_copy(a), **_copy(k)))
+                        counts_b[t] += 1
+                        if got != want:
+                            with lock:
+                                bad.append((fn, a, want, got))
+                            return
+        old = sys.getswitchinterval()
+        sys.setswitchinterval(1e-5)      # (with 48 threads a 1 us interval mostly measures the hand-over itself)
+        try:
+            ths = [threading.Thread(target=work_b, args=(t,), daemon=True) for t in range(many)]
+            for th in ths:
+                th.start()
+            for th in ths:
+                th.join(timeout=secs_b + 120)
+        finally:
+            sys.setswitchinterval(old)
+        counts.append(sum(counts_b))
+        ctx.hit("replay_calls_from_48_threads", sum(counts_b))
+        if bad:
+            nthreads = many
     ctx.ev(sum(counts))
     ctx.hit("replay_concurrent_calls", sum(counts))
     ctx.notes["replay_threads"] = nthreads
